@@ -1,8 +1,147 @@
 (* C16 - host-list editing behaves like editing a plain list of names.
-   Statements only (placeholder while the proofs are being written). *)
-From PV Require Import Hostlist.HLEdit.
-Local Open Scope N_scope.
+   Statements only; proofs in Hostlist/HLEditFacts.v, HLEditFind.v, HLEditHistory.v.
+   M = Hostlist/HLEdit.v (hostlist.c with fixes/C16-*.diff and C02-delete-all-occurrences.diff),
+   S = Hostlist/HLEditSpec.v (a plain list of names with cursor iterators),
+   R m s = the range array expands to the list, the cached count is its length, and every live
+   iterator's (range index, depth) denotes the cursor of its plain-list twin. *)
+From PV Require Import Base.DecimalFacts Hostlist.HLFacts Hostlist.HLSpec Hostlist.HLParseFacts Hostlist.HLLimits.
+From PV Require Import Hostlist.HLEditHistory Hostlist.HLEditUniq.
+Local Open Scope nat_scope.
 
-Theorem C16_placeholder : st_count st_empty = 0%Z.
-Proof. reflexivity. Qed.
-Print Assumptions C16_placeholder.
+(* ---- any history: counts, names returned, positions, what every live iterator sees ---- *)
+Theorem C16_history_refines : forall ops m s s' vs, R m s -> hist_domain s ops -> srun s ops = Some (s', vs) ->
+  exists m', run m ops = ROk (m', vs) /\ R m' s'.
+Proof. exact history_refines. Qed.
+Print Assumptions C16_history_refines.
+
+Theorem C16_history_from_empty : forall ops s' vs, hist_domain ss_empty ops -> srun ss_empty ops = Some (s', vs) ->
+  exists m', run st_empty ops = ROk (m', vs) /\ st_names m' = ss_names s' /\ st_count m' = Z.of_nat (length (ss_names s')).
+Proof. exact history_from_empty. Qed.
+Print Assumptions C16_history_from_empty.
+
+Theorem C16_step_refines : forall m s o s' v, R m s -> op_domain s o -> sstep s o = Some (s', v) ->
+  exists m', step m o = ROk (m', v) /\ R m' s'.
+Proof. exact step_refines. Qed.
+Print Assumptions C16_step_refines.
+
+(* ---- the operations one by one (any number of live iterators) ---- *)
+Theorem C16_count : forall m s, R m s -> st_count m = Z.of_nat (length (ss_names s)).
+Proof. exact count_refines. Qed.
+Print Assumptions C16_count.
+
+Theorem C16_nth : forall m s n, R m s -> (0 <= n)%Z -> st_nth m n = ROk (nth_error (ss_names s) (Z.to_nat n)).
+Proof. exact nth_refines. Qed.
+Print Assumptions C16_nth.
+
+Theorem C16_shift : forall m s, R m s ->
+  match ss_names s with
+  | [] => st_shift m = ROk (m, None)
+  | x :: _ => exists m', st_shift m = ROk (m', Some x) /\ R m' (s_remove_at s 0)
+  end.
+Proof. exact shift_refines. Qed.
+Print Assumptions C16_shift.
+
+Theorem C16_pop : forall m s, R m s ->
+  match ss_names s with
+  | [] => st_pop m = ROk (m, None)
+  | _ => exists m', st_pop m = ROk (m', nth_error (ss_names s) (length (ss_names s) - 1)) /\
+                    R m' (s_remove_at s (length (ss_names s) - 1))
+  end.
+Proof. exact pop_refines. Qed.
+Print Assumptions C16_pop.
+
+Theorem C16_push : forall m s e t, R m s -> create e = Ok t -> Forall hr_ok2 (ranges t) ->
+  (Z.of_nat (length (ss_names s) + length (expand (ranges t))) <= INT_MAX)%Z ->
+  exists m', st_push m e = ROk (m', Z.of_nat (length (expand (ranges t)))) /\
+             R m' (mkss (ss_names s ++ expand (ranges t)) (ss_iters s)).
+Proof. exact push_refines. Qed.
+Print Assumptions C16_push.
+
+Theorem C16_delete_nth : forall m s n, R m s -> (0 <= n < Z.of_nat (length (ss_names s)))%Z ->
+  exists m', st_delete_nth m n = ROk (m', 1%Z) /\ R m' (s_remove_at s (Z.to_nat n)).
+Proof. exact delete_nth_refines. Qed.
+Print Assumptions C16_delete_nth.
+
+(* find never reports a position that does not hold the name: every list, every name *)
+Theorem C16_find_sound : forall m s name m' ret, R m s -> st_find m name = (m', ret) ->
+  R m' s /\ (ret = (-1)%Z \/ exists k, ret = Z.of_nat k /\ nth_error (ss_names s) k = Some name).
+Proof. exact find_sound_refines. Qed.
+Print Assumptions C16_find_sound.
+
+(* and reports the first position, for names whose numeric tail is at most MAX_HOST_SUFFIX *)
+Theorem C16_find_complete_partial : forall m s name, R m s -> D02n name ->
+  exists m', st_find m name = (m', match first_index name (ss_names s) with Some k => Z.of_nat k | None => (-1)%Z end) /\ R m' s.
+Proof. exact find_refines. Qed.
+Print Assumptions C16_find_complete_partial.
+
+Theorem C16_delete_host : forall m s name, R m s -> D02n name ->
+  exists m', st_delete_host m name = ROk (m', snd (s_delete_host s name)) /\ R m' (fst (s_delete_host s name)).
+Proof. exact delete_host_refines. Qed.
+Print Assumptions C16_delete_host.
+
+Theorem C16_delete : forall m s e names, R m s -> expr_ok e -> expansion e = Some names ->
+  Forall D02n names -> (Z.of_nat (length names) <= INT_MAX)%Z ->
+  exists m', st_delete m e = ROk (m', snd (s_delete_names s (rev names) 0)) /\ R m' (fst (s_delete_names s (rev names) 0)).
+Proof. exact delete_refines. Qed.
+Print Assumptions C16_delete.
+
+(* ---- iterators ---- *)
+Theorem C16_iter_next : forall m s h si, R m s -> s_get s h = Some si ->
+  match nth_error (ss_names s) (si_pos si) with
+  | Some x => exists m', st_next m h = ROk (m', Some x) /\ R m' (s_put s h (Some (mksi (S (si_pos si)) true)))
+  | None => exists m', st_next m h = ROk (m', None) /\ R m' (s_put s h (Some (mksi (si_pos si) false)))
+  end.
+Proof. exact next_refines. Qed.
+Print Assumptions C16_iter_next.
+
+Theorem C16_iter_remove : forall m s h si, R m s -> s_get s h = Some si -> si_cur si = true ->
+  exists m', st_remove m h = ROk (m', 1%Z) /\ R m' (s_remove_at s (si_pos si - 1)).
+Proof. exact remove_refines. Qed.
+Print Assumptions C16_iter_remove.
+
+(* whatever happened before, an iterator goes on to return exactly the names behind its cursor *)
+Theorem C16_iter_remaining : forall k m s h si, R m s -> s_get s h = Some si ->
+  length (ss_names s) - si_pos si <= k ->
+  exists m', drain (S k) m h = ROk (m', skipn (si_pos si) (ss_names s)) /\
+             R m' (s_put s h (Some (mksi (Nat.max (si_pos si) (length (ss_names s))) false))).
+Proof. exact drain_remaining. Qed.
+Print Assumptions C16_iter_remaining.
+
+(* ---- where the code fails the property (findings) ---- *)
+(* find misses a host that a bracket expression built when its number exceeds MAX_HOST_SUFFIX *)
+Theorem C16_find_complete_refuted : exists l name,
+  Forall hr_ok2 l /\ In name (expand l) /\ snd (find l name) = (-1)%Z.
+Proof. exact find_complete_refuted. Qed.
+Print Assumptions C16_find_complete_refuted.
+
+(* uniq keeps foo10 twice for foo[5-10],foo[06-10]: the array is sorted w.r.t. hostrange_cmp (the two
+   widths are incompatible, so the comparison falls back to the widths), yet the join loop cannot merge *)
+Theorem C16_uniq_refuted : exists m sorted m', st_inv m /\ sorted_by_cmp sorted = true /\ st_uniq m sorted = ROk m' /\
+  exists i j x, i <> j /\ nth_error (st_names m') i = Some x /\ nth_error (st_names m') j = Some x.
+Proof. exact uniq_refuted. Qed.
+Print Assumptions C16_uniq_refuted.
+
+(* ---- removing duplicates, where the code achieves it ----
+   qsort is an oracle: `sorted` is whatever array it left (st_uniq refuses anything that is not a
+   rearrangement of the range array).  If all ranges of one prefix carry the same zero-padding width,
+   names of different prefixes or kinds never coincide, numbers stay below 2^31 - 1 and neighbours are
+   in hostrange_cmp order, then every distinct name is left exactly once, none is lost, the cached
+   count is right again and every iterator is reset. *)
+Theorem C16_uniq_partial : forall m sorted m',
+  st_inv m -> Forall small sorted -> uniform sorted -> class_disjoint sorted -> sorted_by_cmp sorted = true ->
+  st_uniq m sorted = ROk m' ->
+  st_inv m' /\ uniq_spec (st_names m) (st_names m') /\
+  (length (st_ranges m) <= 1 \/ Forall (fun o => o = None \/ o = Some (it_reset (st_ranges m'))) (st_iters m')).
+Proof. exact uniq_uniform. Qed.
+Print Assumptions C16_uniq_partial.
+
+Example C16_uniq_nonvacuous :
+  (Forall small uniq_demo /\ uniform uniq_demo /\ class_disjoint uniq_demo /\ sorted_by_cmp uniq_demo = true) /\
+  exists m', st_uniq (mkst uniq_demo 15 []) uniq_demo = ROk m' /\
+    st_names m' = [[97; 49]; [97; 50]; [97; 51]; [97; 52]; [97; 53]; [97; 54]; [97; 55]; [97; 56]; [97; 57]; [98; 50]; [120]]%N /\ st_count m' = 11%Z.
+Proof. exact (conj uniq_demo_ok uniq_demo_run). Qed.
+
+(* ---- the hypotheses are met by ordinary inputs ---- *)
+Example C16_history_nonvacuous : exists s' vs,
+  hist_domain ss_empty demo_ops /\ srun ss_empty demo_ops = Some (s', vs) /\ ss_names s' = demo_names.
+Proof. exact demo_ok. Qed.
